@@ -9,6 +9,10 @@ TH = {"BREEZE": "0e01"}
 LEN = {"t1": 165, "shutter": 159, "thermo": 168}
 
 
+# power values at which a rounding tie makes `w / 220` and `w * (1 / 220)` (and similar "equivalent" formulas) round differently
+TIES = [w for w in range(65536) if round(w * (1 / 220), 1) != round(w / 220, 1)] or [11]
+
+
 def types_from_source():
     """type names/codes/categories as the working tree defines them (so a changed enum is followed)"""
     import aioswitcher.device as d
@@ -42,7 +46,7 @@ def gen_device(rng, family=None, dev_id=None):
         code, heater = T1[tn]
         def t():
             return rng.choice([0, 1, 59, 3600, 86399, rng.randrange(86400)])
-        fields = f"{tn} {code} {heater} {rng.randrange(2)} {rng.choice([0, 1, 255, 256, 2600, 65535, rng.randrange(65536)])} {t()} {t()} {gen_common(rng, dev_id)}"
+        fields = f"{tn} {code} {heater} {rng.randrange(2)} {rng.choice([0, 1, 255, 256, 2600, 65535, rng.randrange(65536), 11 + 22 * rng.randrange(2978), rng.choice(TIES), rng.choice(TIES)])} {t()} {t()} {gen_common(rng, dev_id)}"
     elif family == "shutter":
         tn = rng.choice(list(SH))
         fields = f"{tn} {SH[tn]} {rng.choice([0, 1, 50, 99, 100, rng.randrange(101)])} {rng.randrange(3)} {gen_common(rng, dev_id)}"
